@@ -85,3 +85,53 @@ def _or_scalar(a, b):
 def _or(a, b):
     (ar, _), (br, _) = pl(a), pl(b)
     return Res(ew2(_or_scalar, ar, br))
+
+
+# ------------------------------------------------------------------------------------------------
+# argmin / argmax over Euclidean distances |y - c_j| (sqrt forms): decided on the radicands.
+# x -> x^2 is strictly increasing on x >= 0, so the first index attaining the minimum (maximum) is the same for the radicands;
+# without this the base handler materialises one fresh sqrt variable (with s >= 0, s*s == r) per distance as soon as two of
+# them meet in an ITE, and every nearest-point query becomes non-linear in auxiliary variables.
+from .ops import _argmax as _base_argmax  # noqa: E402
+from .ops import _argmin as _base_argmin  # noqa: E402
+from .ops import ew1  # noqa: E402
+from .tensor import SymTensor  # noqa: E402
+
+
+def _radicands(x):
+    if not isinstance(x, torch.Tensor) or x.dtype.is_complex:
+        return x
+    ar, _ = pl(x)
+    flat = ar.reshape(-1)
+    if not any(isinstance(v, S.Sym) and v.rad is not None for v in flat):
+        return x
+    for v in flat:
+        if isinstance(v, S.Sym):
+            if v.rad is None:
+                return x
+        elif isinstance(v, float) or v < 0:
+            return x
+    sq = ew1(lambda v: v.rad if isinstance(v, S.Sym) else S.mul(v, v), ar)
+    return SymTensor(sq, None, x.dtype)
+
+
+@reg(T.argmin, torch.argmin)
+def _argmin(x, dim=None, keepdim=False):
+    return _base_argmin(_radicands(x), dim, keepdim)
+
+
+@reg(T.argmax, torch.argmax)
+def _argmax(x, dim=None, keepdim=False):
+    return _base_argmax(_radicands(x), dim, keepdim)
+
+
+# ------------------------------------------------------------------------------------------------
+# torch.conj on CONCRETE operands: the real kernel returns a lazy-conjugate view whose .imag carries the negative bit, which
+# vk.tensor.lift cannot read (.numpy() refuses).  Run the payload-level conjugation for concrete operands too ("always").
+from .ops import _conj as _base_conj  # noqa: E402
+
+
+@reg(T.conj, torch.conj, nometa="always")
+def _conj_always(x):
+    r = _base_conj(x)
+    return Res(r.re, r.im, x.dtype)
